@@ -346,6 +346,56 @@ def casadi_pairs(M, rec, rng, g, desc, pars, st, combo_list):
             rec.violation(f"{PROP}:{st}: step with options on user symbols raised {type(e).__name__}", dict(ctx, exception=repr(e)[:300]))
 
 
+def user_kind_with_a_queue(M, rec, rng, reps):
+    """A user-defined link kind that owns a queue and honours `positive_init_queue` like the stock ramps do:
+    requesting positive initial queues through Network.step = the plain step on max(0, queue)."""
+    import copy
+
+    from vf import userkinds as UK
+
+    NE, CE = drive.engines(M)
+    for _ in range(reps):
+        n1, n2, n3 = M.Node(name="A"), M.Node(name="B"), M.Node(name="C")
+
+        def build():
+            l1 = UK.QueueLink(rng_N, 2, 1.0, 180.0, 33.5, 102.0, 1.867, name="L1")
+            l2 = M.Link(2, 2, 1.0, 180.0, 33.5, 102.0, 1.867, name="L2")
+            o = M.MeteredOnRamp(2000.0, name="O1")
+            net = M.Network().add_path((M.Node(name="A"), l1, M.Node(name="B"), l2, M.Node(name="C")), origin=o, destination=M.Destination(name="D1"))
+            return net, l1, l2, o
+
+        rng_N = rng.choice((1, 2, 3))
+        vals = {"L1": {"rho": [rng.uniform(5, 60) for _i in range(rng_N)], "v": [rng.uniform(30, 100) for _i in range(rng_N)],
+                       "w": [rng.choice((-4.0, -0.5, 3.0))]},
+                "L2": {"rho": [rng.uniform(5, 60), rng.uniform(5, 60)], "v": [rng.uniform(30, 100), rng.uniform(30, 100)]},
+                "O1": {"w": [rng.choice((-2.5, 0.0, 6.0))], "r": [rng.random()], "d": [rng.uniform(100, 1500)]}}
+        clamped = copy.deepcopy(vals)
+        clamped["L1"]["w"] = [max(0.0, vals["L1"]["w"][0])]
+        clamped["O1"]["w"] = [max(0.0, vals["O1"]["w"][0])]
+        kw = dict(T=10 / 3600, tau=18 / 3600, eta=60.0, kappa=40.0)
+
+        def run(v, **opts):
+            net, l1, l2, o = build()
+            ic = {l1: {k_: np.array(x_) for k_, x_ in v["L1"].items()}, l2: {k_: np.array(x_) for k_, x_ in v["L2"].items()},
+                  o: {k_: np.array(x_) for k_, x_ in v["O1"].items()}}
+            net.step(init_conditions=ic, engine=NE(), **opts, **kw)
+            return {el.name: {k_: np.asarray(x_, dtype=float).ravel().tolist() for k_, x_ in el.next_states.items()} for el in (l1, l2, o)}
+
+        try:
+            a = run(vals, positive_init_queue=rng.choice((True, np.True_, 1)))
+            b = run(clamped)
+        except Exception as e:
+            rec.violation(f"{PROP}:user kind with a queue: stepping raised {type(e).__name__}", {"exception": repr(e)[:300]})
+            continue
+        rec.count("user_kind_queue_option_checks")
+        for en, d in a.items():
+            for k_, xs in d.items():
+                if not all(abs(x - y) <= 1e-12 * (1 + abs(y)) for x, y in zip(xs, b[en][k_])):
+                    rec.violation(f"{PROP}:numpy: positive_init_queue did not reach a user-defined kind that owns a queue (step != plain step on max(0, queue))",
+                                  {"values": vals, "element": en, "state": k_, "with_option": xs, "plain_on_clamped": b[en][k_]})
+                    break
+
+
 def run(M, rec, tier, seed, k, n):
     np.seterr(all="ignore")
     rng = random.Random(seed * 1000 + k + 1100)
@@ -364,6 +414,7 @@ def run(M, rec, tier, seed, k, n):
         casadi_pairs(M, rec, rng, g, desc, pars, st, cl)
     reference_pairs(M, rec, rng, g, 14 if tier == "quick" else 90)
     history_pairs(M, rec, rng, g, 16 if tier == "quick" else 120)
+    user_kind_with_a_queue(M, rec, rng, 40 if tier == "quick" else 400)
 
 
 def finish(M, rec, write=True):
